@@ -674,7 +674,9 @@ Proof.
   assert (Ka : okr TT (match rest with
                        | a :: _ => if tyis a "alias_expression" then
                                      match list_child_segments a true with
-                                     | _ :: x :: _ => Ok (Some (raw x)) | [x] => Ok (Some (raw x)) | [] => Err EIndex end
+                                     | f0 :: x :: _ => if tyis f0 "alias_operator" || (tyis f0 "keyword" && String.eqb (raw_upper f0) "AS")
+                                                     then Ok (Some (raw x)) else Ok (Some (raw f0))
+                                   | [x] => Ok (Some (raw x)) | [] => Err EIndex end
                                    else Ok None
                        | _ => Ok None end)).
   { destruct rest as [|a rest']; [exact I|]. destruct (tyis a "alias_expression") eqn:Ea; [|exact I].
@@ -682,7 +684,7 @@ Proof.
     { apply (Ds_lcs s true a H). assert (Hin : In a all_segments) by (rewrite Eall; right; left; reflexivity).
       unfold all_segments in Hin. apply filter_In in Hin. exact (proj1 Hin). }
     assert (La : list_child_segments a true <> []) by (apply (L2 a (Ds_ef _ _ Da)); rewrite Ea; reflexivity).
-    destruct (list_child_segments a true) as [|x [|y r]]; [destruct (La eq_refl)|exact I|exact I]. }
+    destruct (list_child_segments a true) as [|x [|y r]]; [destruct (La eq_refl)|exact I|destruct (_ || _); exact I]. }
   apply (okr_bind TT _ _ _ Ka). intros alias _.
   destruct (if sexists is_dot (raw ti) then None else _) as [c|] eqn:Ecte.
   - destruct (sexists is_dot (raw ti)); [discriminate|].
